@@ -377,3 +377,9 @@ def noskip_lemmas(tier='quick'):
 
 
 UNITS = [WriteHeadUnit(), RestartUnit(), LemmaUnit('C14.no_skip lemma', noskip_lemmas)]
+
+
+def extra_checks(tier, seed, pool):
+    """assumed contracts of repository-internal callees, compared with the real functions natively (contracts/conformance.py)"""
+    from . import conformance
+    return conformance.run(['scan_logfiles'])
